@@ -334,12 +334,44 @@ def long_alias_programs(g, tier, tag):
                 p.op("Point.Bytes", r="p0", o=["b0"])
 
 
+def digit_sweep_programs(g, tier, tag):
+    """scalars whose recodings put a chosen digit at a chosen position: every radix-16 digit value in every position class
+    (constant-nibble scalars), one digit alone at each position (d * 16^i: entry d of window table i/2 of the fixed-base
+    table and of the per-point table), one odd digit of the width-8 / width-5 NAF alone at a position (d * 2^i and
+    2^(i+8) - d * 2^i: entry (d-1)/2 of the base-point NAF table, either sign).  A single wrong table entry, or a digit
+    value mishandled at one position, is then met deterministically instead of with probability 1/16 per random scalar"""
+    rng = g.rng
+    const = [int(("%x" % nib) * 63, 16) for nib in range(1, 16)]
+    single = [(d * 16**i) % L for i in range(63) for d in (1, 7, 8, 9, 15)]
+    naf = [(d * 2**i) % L for d in range(1, 128, 2) for i in (rng.randrange(0, 240),)] + \
+          [(2**(i + 8) - d * 2**i) % L for d in range(1, 128, 2) for i in (rng.randrange(0, 240),)]
+    if tier == "quick":
+        rng.shuffle(single)
+        rng.shuffle(naf)
+        vals = const + single[:9] + naf[:16]
+    else:
+        vals = const + single + naf
+    for c in range(0, len(vals), 8):
+        p = g.new("%s digit sweep" % tag)
+        load_point(p, "p1", any_point(rng), rng)
+        load_scalar(p, "s1", rng.randrange(1, 2**16), rng, "canon")
+        for v in vals[c:c + 8]:
+            p.scalar_canon("s0", v)
+            p.op("Point.ScalarBaseMult", r="p0", a=["s0"])
+            p.op("Point.ScalarMult", r="p2", a=["s0", "p1"])
+            p.op("Point.VarTimeDoubleScalarBaseMult", r="p3", a=["s1", "p1", "s0"])
+            p.op("Point.VarTimeDoubleScalarBaseMult", r="p3", a=["s0", "p1", "s1"])
+            p.op("Point.MultiScalarMult", r="p4", ss=["s0"], ps=["p1"])
+            p.op("Point.VarTimeMultiScalarMult", r="p4", ss=["s0", "s1"], ps=["p1", "p1"])
+
+
 def suite_C01(g, tier):
     rng = g.rng
     if SHIM:
         shim_programs(g, tier)
     cold_programs(g, tier, "C01")
     stale_state_programs(g, tier, "C01")
+    digit_sweep_programs(g, tier, "C01")
     n_single = 10 if tier == "quick" else 120
     algs = ["Point.ScalarMult", "Point.ScalarBaseMult", "Point.VarTimeDoubleScalarBaseMult"]
     for it in range(n_single):
